@@ -40,8 +40,9 @@ def run(ctx):
 
 # ---------------------------------------------------------------------------------------------- part A
 def part_items(ctx, judge, cov):
-    ctx.tlc("TextForms", "TextForms_mc.cfg", workers=4, env=REFENV)
-    g = ctx.tlc("TextForms", "TextForms_gen.cfg", workers=1, env=REFENV, count=False)
+    deep = "" if ctx.quick else "_deep"      # thorough: every enumeration of the registry
+    ctx.tlc("TextForms", "TextForms_mc%s.cfg" % deep, workers=4, env=REFENV)
+    g = ctx.tlc("TextForms", "TextForms_gen%s.cfg" % deep, workers=1, env=REFENV, count=False)
     cases = g.printed("CASE")
     if len(cases) < 1400:
         raise vlib.Inconclusive("too few TextForms cases: %d" % len(cases))
